@@ -51,6 +51,14 @@ static std::vector<std::vector<uint64_t>> value_lists(const OpDef& d, TypeId t, 
             L.push_back({ 0, 1 });
         else if (d.kind[i] == K_COUNT)
             L.push_back(count_list(t));
+        else if (d.kind[i] == K_IEXP)
+        {
+            const int emax = t == F32 ? 127 : 1023, emin = t == F32 ? -126 : -1022;
+            std::vector<uint64_t> e;
+            for (int v : { emin, emin + 1, emin + 2, -64, -24, -2, -1, 0, 1, 2, 24, 64, emax - 2, emax - 1, emax })
+                e.push_back((uint64_t)(int64_t)v);
+            L.push_back(e);
+        }
         else
             L.push_back(full ? full_list(t) : lattice(t));
     }
@@ -108,6 +116,19 @@ static void run_group(Context& cx, const Group& g, const Resolved& r)
             cx.st.cls(stride == 1 ? "sweep_full_exhaustive_groups" : "sweep_full_strided_groups");
         }
     }
+    // 2b. floating unary ops: dense boundary list; float32 additionally every k-th bit pattern (thorough: all)
+    if (tfloat(t) && d.arity == 1 && d.kind[0] == K_VAL)
+    {
+        auto U = fp_unary_list(t);
+        sweep_product(cx, d, t, r, { U }, 1, 0, 2, imms);
+        if (t == F32)
+        {
+            const uint64_t stride = thorough ? 1 : 257;
+            const uint64_t count = (1ull << 32) / stride;
+            sweep_range(cx, d, t, r, thorough ? 0 : mix64(seed) % stride, stride, count);
+            cx.st.cls(thorough ? "f32_unary_exhaustive_groups" : "f32_unary_strided_groups");
+        }
+    }
     // 3. rapidcheck
     if (cx.opt.budget > 0)
         rc_group(cx, d, t, r, cx.opt.budget);
@@ -138,7 +159,7 @@ int main(int argc, char** argv)
         bool take = scalar ? scalar_op_claimed(d) : d.prop == prop;
         if (!cx.opt.only_ops.empty())
             take = take && cx.opt.only_ops.count(d.name);
-        if (take || !cx.opt.replay.empty())
+        if (take && cx.opt.replay.empty())
             ops.push_back(&d);
     }
     std::set<std::string> fams;
@@ -150,7 +171,7 @@ int main(int argc, char** argv)
 
     if (!cx.opt.replay.empty())
     {
-        const OpDef* d = find_op(cx.opt.replay[0]);
+        const OpDef* d = cx.opt.replay.size() > 1 ? find_op(cx.opt.replay[0], type_from_name(cx.opt.replay[1])) : nullptr;
         if (!d)
         {
             fprintf(stderr, "unknown op\n");
